@@ -22,14 +22,14 @@ MARKS = {
     2: ("build", "self.cache[clazz] = builder.build(clazz, parent_ns)"),
     3: ("build", "return self.cache[clazz]"),
     4: ("build_xsi_cache", "if len(sys.modules) == self.sys_modules:"),
-    5: ("build_xsi_cache", "self.xsi_cache.clear()"),
-    6: ("build_xsi_cache", "self.xsi_cache[meta.target_qname].append(clazz)"),
+    5: ("build_xsi_cache", "self.xsi_cache = index"),
     7: ("build_xsi_cache", "self.sys_modules = len(sys.modules)"),
     8: ("find_types", "if qname in self.xsi_cache:"),
     9: ("find_types", "return self.xsi_cache[qname]"),
-    10: ("find_type", "return types[-1] if types else None"),
-    11: ("find_subclass", "for tp in types:"),
 }
+# lines that must NOT come back: the in-place rebuild fixed by /repo ece294b
+FORBIDDEN = [("build_xsi_cache", "self.xsi_cache.clear()"),
+             ("build_xsi_cache", "self.xsi_cache[meta.target_qname].append(clazz)")]
 
 SUPPORTED_CALLS = ("build", "fetch", "find_type", "find_types", "find_subclass")
 
@@ -82,15 +82,18 @@ def run(ck: Check):
     def gen_runs(n_index):
         runs, kinds = [], {"witness": 0, "cold": 0, "warm": 0, "many-threads": 0, "mixed": 0}
         ft = by_tag["find_type:Leaf"]
-        # the witness of C19_cold_index_race_refuted: A passes the currency check, R rebuilds completely
-        # and is about to look the qname up, A clears
-        runs.append({"warm": [], "threads": [ft, ft], "schedule": [0] + [1] * (n_index + 3) + [0, 1, 1]})
-        kinds["witness"] += 1
+        # the schedule of the former cold-index race (C19_former_race_schedule_harmless): A passes the
+        # currency check and stops before publishing, R rebuilds completely and is about to look the qname
+        # up, A publishes, R looks up
         pr = by_tag["parse-auto:PA"]
-        runs.append({"warm": [], "threads": [pr, pr], "schedule": [0] + [1] * (n_index + 3) + [0, 1, 1]})
-        kinds["witness"] += 1
+        for t in (ft, pr, by_tag["parse:Holder"]):
+            runs.append({"warm": [], "threads": [t, t], "schedule": [0, 1, 1, 1, 0, 1, 1]})
+            kinds["witness"] += 1
         # the concurrent form of the cache-key defect
         runs.append({"warm": [ft], "threads": [by_tag["ser:PA"], by_tag["ser:PB"]], "schedule": [0, 0, 0, 0, 1, 1, 1, 1, 1, 0]})
+        kinds["witness"] += 1
+        # the thread set of the un-forced stress, run one after the other: the model must put it inside the guard
+        runs.append({"warm": [], "threads": stress_threads, "schedule": []})
         kinds["witness"] += 1
         sets = [[by_tag[t] for t in s if t in by_tag] for s in CLOSED_SETS]
         for k in range(ck.n(200, 20000)):
@@ -102,23 +105,28 @@ def run(ck: Check):
             if nthreads > 4:
                 kinds["many-threads"] += 1
             threads = [r.choice(pool) for _ in range(nthreads)]
-            cold = r.random() < 0.5
+            cold = r.random() < 0.6
             warm = [] if cold else [r.choice([ft, by_tag["ser:PA"], by_tag["parse-auto:Own"]])
                                     for _ in range(r.randint(1, 2))]
             kinds["cold" if cold else "warm"] += 1
-            # schedule: bursts, so that a thread often gets through a whole rebuild while another waits inside one
             sched = []
-            budget = nthreads * (n_index + 12) if cold else nthreads * 14
+            budget = nthreads * 16
             while len(sched) < budget:
                 t = r.randrange(nthreads)
-                burst = r.choice([1, 1, 2, 3, 5, n_index // 2, n_index + 3]) if cold else r.choice([1, 1, 2, 3])
-                sched += [t] * burst
+                sched += [t] * r.choice([1, 1, 1, 2, 2, 3, 4])
             runs.append({"warm": warm, "threads": threads, "schedule": sched[:budget]})
         return runs, kinds
 
     strip = [{k: v for k, v in o.items() if k not in ("events", "tag", "needs")} for o in ops]
     payload = {"static": c14.STATIC, "dynamic": [], "ops": strip, "marks": {str(k): list(v) for k, v in MARKS.items()},
                "step_timeout": 20.0}
+    import re as _re
+    src_ctx = open(os.path.join(common.REPO, "xsdata/formats/dataclass/context.py"), encoding="utf-8").read()
+    for fn, text in FORBIDDEN:
+        body = _re.search(r"def %s\(.*?(?=\n    def |\Z)" % fn, src_ctx, _re.S)
+        if body and any(line.strip() == text for line in body.group(0).splitlines()):
+            ck.failure("cold-index-race", f"{fn} again contains `{text}`: the index is rebuilt in place on the dict other "
+                       "threads read (regression of /repo ece294b)", {"function": fn, "line": text})
     probe = run_impl("impl_c19.py", dict(payload, runs=[]), timeout=300)
     if "mark_error" in probe:
         # the schedules cannot be replayed; still look for a concrete failing call without the scheduler
@@ -132,15 +140,16 @@ def run(ck: Check):
                                            "unforced_stress": st})
         return ck.finish(obligations=obligations, discharged=discharged, checker_cmd="coqc", trusted_base=TRUSTED_COMMON)
     n_index = len(probe["order"])
-    runs, kinds = gen_runs(n_index)
     stress_threads = [by_tag[t] for t in ("parse-auto:PA", "find_type:Leaf", "parse:Holder", "parse-auto:Own", "ser:Own",
                                           "find_type:{urn:h}Base", "parse-auto:Tgt", "find_subclass:Base,Der2")] * 2
+    runs, kinds = gen_runs(n_index)
     nproc = ck.n(4, 12)
     chunks = [runs[i::nproc] for i in range(nproc)]
     import concurrent.futures as cf
     with cf.ThreadPoolExecutor(max_workers=nproc) as ex:
         outs = list(ex.map(lambda a: run_impl("impl_c19.py", dict(payload, runs=a[1],
-                                                                 stress={"rounds": ck.n(40, 2000), "threads": stress_threads}
+                                                                 stress={"rounds": ck.n(40, 2000), "threads": stress_threads,
+                                                                         "warm": [by_tag["find_type:Leaf"]]}
                                                                  if a[0] == 0 else None), timeout=2400),
                            enumerate(chunks)))
     res_runs = [None] * len(runs)
@@ -164,10 +173,10 @@ def run(ck: Check):
         cases.append(c_ccase(ops, run_["warm"], run_["threads"], run_["schedule"], out["results"], out["solo"],
                              out["log"], rint))
         idx.append(i)
-    summ = c14.coq_summaries("c19", "\n".join(defs + rint.defs), cases, shard=16, fn="ccase_summary", ctype="ccase")
+    summ = c14.coq_summaries("c19", "\n".join(defs + rint.defs), cases, shard=max(16, len(cases) // 64), fn="ccase_summary", ctype="ccase")
 
     ck.cov["evaluations"] = sum(len(runs[i]["threads"]) for i in idx)
-    stats = {"cases": len(cases), "differing": 0, "guarded": 0, "cold_race": 0, "ns_concurrent": 0,
+    stats = {"cases": len(cases), "differing": 0, "guarded": 0, "cold": 0, "ns_concurrent": 0,
              "steps_replayed": sum(len(res_runs[i]["log"]) for i in idx)}
     distinct = set()
 
@@ -191,30 +200,38 @@ def run(ck: Check):
             stats["differing"] += 1
         if not s & 2:
             ck.failure("concurrent-difference-inside-guard", "a thread's result differs from its solo run although the context "
-                       "was warm and the requests ns-closed: " + what, replay(i))
+                       "was requests ns-closed (guard of context_safe): " + what, replay(i))
             continue
         if not s & 4:
             ck.failure("concurrent-difference-unexplained", "a thread's result differs from its solo run and the model does not "
                        "reproduce it: " + what, replay(i))
             continue
-        if s & 32:
-            stats["cold_race"] += 1
-            ck.failure("cold-index-race", "a thread observed the index while another thread was rebuilding it: " + what, replay(i))
-        elif s & 64:
+        if s & 64:
             stats["ns_concurrent"] += 1
             ck.failure("ns-cache-key-concurrent", "two threads requested one class under different parent namespaces: " + what,
                        replay(i))
+        if s & 32:
+            stats["cold"] += 1
     # un-forced stress (search only)
     st = outs[0]["stress"]
     if st and st["mismatches"]:
         ck.notes.append(f"un-forced stress: {len(st['mismatches'])}+ mismatching calls in {st['rounds']} rounds, e.g. "
                         f"{ops[st['mismatches'][0]['op']]['tag']}: {st['mismatches'][0]['got']} vs solo {st['mismatches'][0]['solo']}")
-        ck.failure("cold-index-race", "un-forced 16-thread stress on a cold context: a call differs from its solo result "
-                   f"({ops[st['mismatches'][0]['op']]['tag']})", {"stress": st})
+        ck.failure("cold-index-race", "un-forced 16-thread stress on a cold context (thread set inside the guard): a call "
+                   f"differs from its solo result ({ops[st['mismatches'][0]['op']]['tag']})", {"stress": st})
     elif st:
         ck.notes.append(f"un-forced stress: no mismatch in {st['rounds']} rounds of 16 threads")
+    if st and st.get("warm"):
+        # the same threads on a context whose index is current: inside the guard of warm_context_safe
+        m = st["warm"][0]
+        ck.failure("concurrent-difference-inside-guard", "un-forced 16-thread stress on a WARM context: a call differs from "
+                   f"its solo result ({ops[m['op']]['tag']}: {m['got']} vs {m['solo']})", {"stress": st})
     if stats["guarded"] == 0:
-        ck.failure("harness-guard-vacuous", "no generated case satisfies the guard of warm_context_safe", {"kinds": kinds})
+        ck.failure("harness-guard-vacuous", "no generated case satisfies the guard of context_safe", {"kinds": kinds})
+    stress_case = [k for k, i in enumerate(idx) if runs[i]["threads"] == stress_threads and not runs[i]["schedule"]]
+    if not stress_case or not summ[stress_case[0]] & 16:
+        ck.failure("harness-stress-set-not-closed", "the thread set of the un-forced stress is not inside the guard",
+                   {"threads": [ops[t]["tag"] for t in stress_threads]})
     ck.cov["distinct_nontrivial"] = len(distinct)
     ck.cov["rule"] = ("(prepared context, one operation per thread, schedule) triples replayed line by line on the real "
                       "XmlContext: the witness of the refutation, random bursty schedules with 2-16 threads on cold and warm "
